@@ -231,7 +231,7 @@ Scenario make_c03() {
     s.assumptions = {"with several manifests for one chunk the bound is the latest instant any acceptable one of them allows (min(expiry, arrival + max TTL)); key shares and copies are additionally bound by the manifests of the publisher whose key material / ciphertext they are (two publishers issue manifests for the same chunk ids)",
                      "1 s of slack on every comparison and a 1.5 s guard band around the minimum-TTL edge: TTLs are whole seconds and the node reads the clock after the driver; when stalls are injected into receive_chunk (up to 0.3 s at any scheduling point, a third of the runs) the slack for that chunk grows by the measured duration of the stalls, no more",
                      "private tables are read by compiling the harness with -fno-access-control (no hook)"};
-    s.rule = "plan = TTL limits, cleanup interval, clock jitter + 4..30 operations (ingest / announce / replica / fetch with one of 20 relative expiries, time advances, ticks); non-trivial = a delivered manifest is expired, at the minimum-TTL edge or beyond the maximum TTL; distinct = plan hash";
+    s.rule = "plan = TTL limits, cleanup interval, clock jitter + 4..30 operations (ingest / announce / replica / fetch with one of 20 relative expiries, time advances, ticks); non-trivial = a delivered manifest is expired, at the minimum-TTL edge or beyond the maximum TTL; distinct = plan hash; in a third of the runs the thread importing a replica is stalled for up to 0.3 s at any scheduling point inside receive_chunk; the store's default TTL is the minimum, the maximum or the middle of the window";
     s.gen = gen_c03; s.exec = exec_c03; s.kernel_knobs = c03_knobs;
     s.quick_runs = 30000; s.thorough_runs = 3000000; s.quick_secs = 45; s.thorough_secs = 900;
     add_swarm_variant(s, 100);
